@@ -5,6 +5,7 @@ specs: remote/HttpFileSpec (oracle), HttpFileImpl (design), HttpFileTrace.
 import io
 import os
 import random
+import zlib
 import re
 
 from .. import evidence, findings, hist, par, tlc, tracecheck
@@ -218,8 +219,10 @@ def replay_histories(ev, rep, tier):
                  dict(plan="B", lens=[0, 1, 5, 9], depth=3)]
         configs = [(cs, k) for cs in (1, 2, 3, 4, 8) for k in (1, 2, 3)]
     else:
-        plans = [dict(plan="A", lens=[8, 12], depth=4),
-                 dict(plan="B", lens=list(range(0, 10)), depth=4)]
+        # (depth 4 on every length needs more than 40 GB: depth 4 on one
+        # length, a quarter of the schedules by hash; depth 3 on all lengths)
+        plans = [dict(plan="A", lens=[8], depth=4, keep=4),
+                 dict(plan="B", lens=list(range(0, 10)), depth=3)]
         configs = [(cs, k) for cs in (1, 2, 3, 4, 5, 8, 16)
                    for k in (1, 2, 3, 5)]
     total = 0
@@ -233,7 +236,12 @@ def replay_histories(ev, rep, tier):
         ev.add_tlc("MC_HttpFileHist plan=%s depth=%d lens=%s" % (
             plan["plan"], plan["depth"], plan["lens"]), res)
         by_len = {}
-        for d in res.tagged("H"):
+        keep = plan.get("keep", 1)
+        for d in res.iter_tagged("H", consume=True):
+            if keep > 1:
+                key = repr([d["len"], [sched_key(st) for st in d["h"]]])
+                if zlib.crc32(key.encode()) % keep:
+                    continue
             by_len.setdefault(d["len"], []).append(d["h"])
         jobs = []
         for length, hs in sorted(by_len.items()):
